@@ -246,8 +246,81 @@ class Attenuated(Case):
                             yield w
 
 
+class AttenuatedSubsecond(Case):
+    """bounded: the windowed mode on time axes that are NOT whole seconds (the deductive cases require
+    whole-second stamps): the flags must follow the spread over the trailing window (t - test_period, t]
+    computed on the true instants (400 ms sampling, irregular sub-second spacing, millisecond stamps)"""
+
+    is_bounded = True
+    module = "ioos_qc.qartod"
+    function = "attenuated_signal_test"
+    default_props = {}
+    props = {"bounded.subsecond_windows": ("C12",)}
+
+    def all_props(self):
+        return {"C12"}
+
+    AXES = {
+        "400ms": [0, 400, 800, 1200, 1600, 2000, 2400],
+        "irregular": [0, 350, 900, 1250, 1990, 2010, 2700],
+        "burst": [0, 100, 200, 1000, 1100, 1200, 2000],
+    }
+    SERIES = [[1.0, 1.0, 1.0, 5.0, 5.0, 5.0, 9.0], [0.0, 3.0, 1.0, 3.0, 3.0, 0.0, 2.0], [2.0, 2.5, 2.0, 2.5, 2.0, 7.0, 7.0]]
+
+    def one(self, values):
+        import math
+        import warnings
+
+        import numpy as np
+
+        from pyvc import replay
+
+        q = replay.real_module(self.module)
+        ms = self.AXES[values["axis"]]
+        x = self.SERIES[values["series"]]
+        t = np.array(ms, dtype="datetime64[ms]")
+        P, sus, fail, chk = values["period"], values["sus"], values["fail"], values["check"]
+        try:
+            with warnings.catch_warnings():
+                warnings.simplefilter("ignore")
+                got = q.attenuated_signal_test(np.array(x), t, suspect_threshold=sus, fail_threshold=fail, test_period=P, check_type=chk)
+        except Exception as e:  # noqa: BLE001
+            return "raised %r" % (e,)
+        got = np.ma.filled(np.ma.masked_array(got), 255).tolist()
+        for k in range(len(x)):
+            win = [x[j] for j in range(len(x)) if ms[k] - 1000 * P < ms[j] <= ms[k]]
+            if chk == "std":
+                if len(win) < 2:
+                    ok = {2}
+                else:
+                    mu = sum(win) / len(win)
+                    sp = math.sqrt(sum((v - mu) ** 2 for v in win) / (len(win) - 1))
+                    ok = None
+            else:
+                sp, ok = max(win) - min(win), None
+            if ok is None:
+                ok = set()
+                for s_ in (sp, sp - 1e-9 * max(1.0, sp), sp + 1e-9 * max(1.0, sp)):
+                    ok.add(4 if s_ < fail else (3 if s_ < sus else 1))
+            if got[k] not in ok:
+                return "%s axis, %s, test_period=%ss: point %d has flag %d, the spread of its window %r gives %s" % (values["axis"], chk, P, k, got[k], win, sorted(ok))
+        return None
+
+    def bounded_checks(self, tier, rng):
+        for axis in self.AXES:
+            for si in range(len(self.SERIES)):
+                for P in (0.5, 1, 1.3, 2):
+                    for chk in ("std", "range"):
+                        for sus, fail in ((3.0, 1.0), (1.0, 0.25)):
+                            v = {"axis": axis, "series": si, "period": P, "check": chk, "sus": sus, "fail": fail}
+                            yield ("subsecond", "subsecond", v, (lambda v=v: self.one(v)))
+
+    def replay_bounded(self, label, values):
+        return self.one(values)
+
+
 def cases():
-    cs = []
+    cs = [AttenuatedSubsecond()]
     for chk in ("std", "range"):
         cs.append(Attenuated(check=chk, window=False, minimum="none"))
         for mn in ("none", "obs", "period"):
